@@ -288,8 +288,10 @@ def r4_folding(ctx):
                     for e in q.events[st_:]:
                         if e.kind == "store" and e.extra == "self.magnitude":
                             factors.add((lp_ is not None, norm(e.resolved)))
-        total = [f for inloop, f in factors if "self.baseunits.magnitude" in f or not inloop]
-        per_unit = [f for inloop, f in factors if inloop and "get_unit_base(" in f and "self.baseunits.magnitude" not in f]
+        total = sorted({f for inloop, f in factors if "self.baseunits.magnitude" in f})
+        per_unit = sorted({f for inloop, f in factors if "@loop" in f and "get_unit_base(" in f and "self.baseunits.magnitude" not in f})
+        if not total and any(f not in per_unit for _, f in factors):
+            per_unit = []          # some other factor: not interpreted
         if total:
             ctx.violated(Q, "Quantity.__init__", "the factor folded into the number is the product of the dropped units only",
                          detail=sorted(total), expected="self.magnitude *= get_unit_base(unitid, exp).magnitude for each dropped unit")
